@@ -11,7 +11,7 @@
 //      ~Router ignores clusterRefs, so a ClusterRef is never freed at all
 //      (its destructor also abort()s when called by the user).
 #include "libavoid/libavoid.h"
-#include "../c15d_obs_common.h"
+#include "c15d_obs_common.h"
 using namespace Avoid;
 
 static int scenario1(void)
